@@ -156,7 +156,12 @@ def gen(rng):
         kind = "ok"
         if r < 0.35:
             kind = str(rng.choice(["infeasible", "budget", "nosupply", "singular"]))
-        hist.append({"kind": kind})
+        step = {"kind": kind}
+        if rng.random() < 0.6:
+            # distinct tolerances per dimension: a stage that pairs a variable with the wrong option shows as a last
+            # change above the tolerance in force
+            step["tols"] = {k: float(rng.choice([1e-3, 1e-4, 1e-5, 1e-6, 1e-8])) for k in ("tol_p", "tol_m", "tol_T")}
+        hist.append(step)
     s = netgen.gen_hydraulic(rng, n_junc=int(rng.integers(3, 10)))
     if rng.random() < 0.3:
         s = netgen.gen_heat_tree(rng)
@@ -182,6 +187,7 @@ def oracle(spec):
     for step in spec["c05"]:
         kind = step["kind"]
         opts = dict(opts0)
+        opts.update(step.get("tols", {}))
         undo = None
         if kind == "budget":
             opts.update(max_iter_hyd=1, max_iter_therm=1, max_iter_bidirect=1, iter=1)
